@@ -30,6 +30,37 @@ class Joy:
         return self.level
 
 
+class RealJoy:
+    """a real wpilib.Joystick fed through the driver-station simulator (it has everything a Joystick has: the
+    press / release latches, other buttons ...); setting .level sends a driver-station packet"""
+
+    def __init__(self):
+        import wpilib.simulation
+        self._ds = wpilib.simulation.DriverStationSim
+        self._ds.setJoystickButtonCount(0, 12)
+        self._level = False
+        self.stick = wpilib.Joystick(0)
+        self._send(False)
+
+    def _send(self, v):
+        self._ds.setJoystickButton(0, 3, bool(v))
+        self._ds.setJoystickButton(0, 4, not v)        # another button does the opposite
+        self._ds.notifyNewData()
+
+    @property
+    def level(self):
+        return self._level
+
+    @level.setter
+    def level(self, v):
+        if bool(v) != self._level:
+            self._level = bool(v)
+            self._send(v)
+
+    def __getattr__(self, name):
+        return getattr(self.stick, name)
+
+
 class FakeTime:
     """stands in for the time module inside periodic_filter (monotonic clock on the 1/64 s grid)"""
     now = 0
@@ -53,7 +84,7 @@ def run_trace(tid, shape, events):
     FakeTime.now = 0
     pf_mod.time = FakeTime()
     kind = shape["kind"]
-    joy = Joy()
+    joy = RealJoy() if tid % 2 == 0 and kind in ("toggle", "bd") else Joy()
     cap = Capture()
     wlog = logging.getLogger("simple_watchdog")
     wlog.handlers = [cap]
